@@ -226,7 +226,7 @@ Proof.
 Qed.
 
 Lemma send_resend_request_shape : forall s b e s1 st, send_resend_request s b e = (s1, st) ->
-  s_tgt s1 = s_tgt s /\ exists c, st = SResend None c e /\ (c = 0 \/ c < e).
+  s_tgt s1 = s_tgt s /\ exists c, st = SResend (Some []) c e /\ (c = 0 \/ c < e).
 Proof.
   intros s b e s1 st H. unfold send_resend_request in H. cbv zeta in H.
   match type of H with context [if ?x <? e then _ else _] => destruct (Z.ltb_spec x e) as [Hl|Hl] end;
@@ -386,7 +386,7 @@ Proof.
     unfold do_target_too_high in E. destruct (send_resend_request_shape _ _ _ _ _ E) as (Hx & c0 & -> & Hc).
     unfold RIst. cbn [unwrap_pending]. rewrite Hx.
     (* the request is [exp, recv-1] with exp the expected number: the range end is recv-1 *)
-    split; [lia|]. split; [lia | exact I].
+    split; [lia|]. split; [lia|]. split; [intros [] | intros k0 m0 []].
   - unfold logout_state_fix_msg_in in E. destruct (in_session_fix_msg_in s m) as [x nx].
     destruct nx; inversion E; subst; apply RIst_not_resend; first [apply ns_SLatent | apply ns_SLogout].
   - apply (in_session_ri s m); assumption.
@@ -549,6 +549,7 @@ Proof.
   - free_rest.
   - free_rest.
   - apply ri_clause. apply step_ri; assumption.
+  - free_rest.
   - free_rest.
   - rewrite <- (step_cfg (s_cfg s) s e eq_refl). apply IH; [apply step_ri | apply step_lb]; assumption.
 Qed.
